@@ -12,6 +12,7 @@ undefined `out(...)`; the harness injects both when it runs them."""
 import json
 import os
 import random
+import re
 import subprocess
 import sys
 
@@ -336,9 +337,70 @@ def gen_flow(seed, lang, import_list=False):
 
 
 # ---------------------------------------------------------------------------------------------------
+# generated multi-file projects: library files whose functions OTHER files import (the "move a function into another
+# file" edit applied to such a function turns the library file into a re-exporting intermediate module)
+
+def gen_flow_multi(seed, lang, form="from", repo="/repo"):
+    """A gen_flow program whose self-contained leaf functions live in library modules liba / libb.
+    form 'from'   : `from liba import f` (Python) / `import { f } from "./liba.js"` (JavaScript)
+    form 'module' : `import liba` + `liba.f(...)` (Python only)"""
+    from . import edits
+    for attempt in range(6):
+        g = gen_flow(seed * 13 + attempt * 7919 + 5, lang)
+        rng = random.Random(seed * 31 + attempt)
+        files = dict(g["files"])
+        main = g["main"]
+        moved = []
+        groups = g["def_groups"]
+        for libname in ("liba", "libb"):
+            if lang == "python":
+                st = edits.py_move_to_file(files, rng, main, protected=PROTECTED, helper=libname)
+            else:
+                st = edits.js_move_to_file(files, rng, main, repo, groups, protected=PROTECTED, helper=libname)
+            if st is None:
+                break
+            fn = st.detail["function"]
+            if fn not in g["renamable"]["rename-function"]:      # shadowed somewhere: leave it alone
+                continue
+            if not re.search(r"(?<![A-Za-z0-9_])" + re.escape(fn) + r"\(", st.files[main]):
+                continue                                          # nobody in the importing file calls it
+            # author-declared blocks follow the text
+            new_groups = []
+            for grp in groups:
+                ng = []
+                for (a, b) in grp:
+                    x, y = st.line_map.get((main, a)), st.line_map.get((main, b))
+                    if x and y and x[0] == main and y[0] == main:
+                        ng.append((x[1], y[1]))
+                new_groups.append(ng)
+            groups = new_groups
+            files = st.files
+            moved.append((libname, fn))
+            if rng.random() < 0.4:
+                break
+        if not moved:
+            continue
+        ren = {k: [n for n in v if n not in [m[1] for m in moved]] for k, v in g["renamable"].items()}
+        if form == "module" and lang == "python":
+            text = files[main]
+            for lib, fn in moved:
+                text = text.replace(f"from {lib} import {fn}\n", f"import {lib}\n")
+                text = re.sub(r"(?<![A-Za-z0-9_.])" + re.escape(fn) + r"\(", f"{lib}.{fn}(", text)
+            files[main] = text
+        ext = "py" if lang == "python" else "js"
+        libs = [f"{lib}.{ext}" for lib, _ in moved]
+        return {"name": f"multi_{form}_{lang[:2]}{seed}", "lang": lang, "files": files, "main": main, "origin": "gen_multi",
+                "runnable": True, "features": sorted(set(g["features"]) | {"multi-file", "import-" + form}), "renamable": ren,
+                "def_groups": groups, "entry": "main", "argvecs": g["argvecs"], "lib_files": libs,
+                "lib_functions": {f"{lib}.{ext}": fn for lib, fn in moved}}
+    return None
+
+
+# ---------------------------------------------------------------------------------------------------
 # hand-written templates: segments; a ("defs", [...]) segment is a group of independent, reorderable definitions
 
-def _tpl(name, lang, rel, segments, renamable, runnable=False):
+def _tpl(name, lang, rel, segments, renamable, runnable=False, hierarchy=(), features=(), java_driver=None):
+    """hierarchy: [(index of the subclass block, index of its superclass block)] within the FIRST defs group."""
     lines = []
     groups = []
     for kind, val in segments:
@@ -352,8 +414,10 @@ def _tpl(name, lang, rel, segments, renamable, runnable=False):
                 lines += ds
                 lines.append("")
             groups.append(grp)
+    hier = [(groups[0][c][0], groups[0][p_][0]) for (c, p_) in hierarchy] if groups else []
     return {"name": name, "lang": lang, "files": {rel: "\n".join(lines) + "\n"}, "main": rel, "origin": "template",
-            "runnable": runnable, "features": ["template"], "renamable": renamable, "def_groups": groups}
+            "runnable": runnable or bool(java_driver), "features": ["template"] + list(features), "renamable": renamable,
+            "def_groups": groups, "hierarchy": hier, "java_driver": java_driver}
 
 
 def templates():
@@ -378,6 +442,47 @@ def templates():
         ]),
     ], {"rename-local": ["mv", "st", "got", "mixed"], "rename-param": ["hv", "ma", "mb"], "rename-function": ["fetch", "blend"],
         "rename-class": ["Store", "Mixer"]}))
+    # class hierarchies with calls that dispatch to INHERITED methods; top-level Java classes are order-independent
+    # (javac + java confirm every permutation), so the reorder edit may put a subclass before its superclass
+    T.append(_tpl("java_hierarchy", "java", "Main.java", [
+        ("defs", [
+            "class Parent {\n    int run(int px) {\n        sink(px);\n        return px + 1;\n    }\n}",
+            "class Child extends Parent {\n    int other(int py) {\n        int vy = py * 2;\n        return vy;\n    }\n}",
+            "class GrandChild extends Child {\n    int more(int pz) {\n        int vz = other(pz) - 1;\n        return vz;\n    }\n}",
+            "class Main {\n    static int main(int tainted, int b, int c) {\n        Child kid = new Child();\n        int t1 = kid.run(tainted);\n        GrandChild gk = new GrandChild();\n        int t2 = gk.run(t1 + b);\n        int t3 = gk.more(c);\n        return t2 + t3;\n    }\n}",
+        ]),
+    ], {"rename-local": ["vy", "vz", "kid", "gk", "t1", "t2", "t3"], "rename-param": ["px", "py", "pz"], "rename-function": ["other", "more"],
+        "rename-class": ["GrandChild"]}, hierarchy=[(1, 0), (2, 1)], features=["hierarchy"],
+        java_driver={"entry_class": "Main", "call": "Main.main(1, 2, 3)"}))
+    T.append(_tpl("java_hierarchy_iface", "java", "Shop.java", [
+        ("defs", [
+            "abstract class Base {\n    int keep;\n    int store(int pv) {\n        this.keep = pv;\n        sink(pv);\n        return pv;\n    }\n    abstract int price(int pq);\n}",
+            "class Item extends Base {\n    int price(int pq) {\n        int vq = pq + 3;\n        return vq;\n    }\n}",
+            "class Shop {\n    static int main(int tainted, int b, int c) {\n        Item it = new Item();\n        int s1 = it.store(tainted + b);\n        int s2 = it.price(c);\n        return s1 + s2;\n    }\n}",
+        ]),
+    ], {"rename-local": ["vq", "it", "s1", "s2"], "rename-param": ["pv", "pq"], "rename-function": ["store"], "rename-class": ["Item"]},
+        hierarchy=[(1, 0)], features=["hierarchy"], java_driver={"entry_class": "Shop", "call": "Shop.main(1, 2, 3)"}))
+    # PHP: a class without parent is hoisted, a class that extends it is declared when execution reaches it, so
+    # Child-before-Parent is valid as long as nothing is instantiated at file level (nothing is: no top-level code)
+    T.append(_tpl("php_hierarchy", "php", "shop.php", [
+        ("fixed", "<?php\n"),
+        ("defs", [
+            "class BaseK {\n    public $keep;\n    function store($pv) {\n        $this->keep = $pv;\n        sink($pv);\n        return $pv;\n    }\n}",
+            "class ItemK extends BaseK {\n    function price($pq) {\n        $vq = $pq + 3;\n        return $vq;\n    }\n}",
+            "function main($tainted, $b, $c) {\n    $it = new ItemK();\n    $s1 = $it->store($tainted + $b);\n    $s2 = $it->price($c);\n    return $s1 + $s2;\n}",
+        ]),
+    ], {"rename-local": ["vq", "it", "s1", "s2"], "rename-param": ["pv", "pq"], "rename-function": [], "rename-class": []},
+        hierarchy=[(1, 0)], features=["hierarchy"]))
+    # TypeScript/JavaScript class declarations are NOT hoisted (`class Child extends Parent` before Parent is a
+    # ReferenceError under node, TS2449 under tsc): the classes stay in a fixed segment, only the functions move
+    T.append(_tpl("ts_hierarchy", "typescript", "shop.ts", [
+        ("fixed", "class Base {\n    keep: number = 0;\n    store(pv: number): number {\n        this.keep = pv;\n        sink(pv);\n        return pv;\n    }\n}\n\nclass Item extends Base {\n    price(pq: number): number {\n        const vq = pq + 3;\n        return vq;\n    }\n}\n"),
+        ("defs", [
+            "function relay(pr: number): number {\n    const vr = pr + 1;\n    return vr;\n}",
+            "function main(tainted: number, b: number, c: number): number {\n    const it = new Item();\n    const s1 = it.store(relay(tainted) + b);\n    const s2 = it.price(c);\n    return s1 + s2;\n}",
+        ]),
+    ], {"rename-local": ["vq", "vr", "it", "s1", "s2"], "rename-param": ["pv", "pq", "pr"], "rename-function": ["relay"], "rename-class": []},
+        features=["hierarchy-fixed-order"]))
     T.append(_tpl("go_service", "go", "service.go", [
         ("fixed", "package service\n"),
         ("defs", [
@@ -585,6 +690,56 @@ def run_py_project(files, main_rel, entry="main", argvecs=((1, 2, 3),), budget=2
             if v is not None:
                 sys.modules[k] = v
     return [status, [list(r) for r in records], rets]
+
+
+JAVA_DRIVER = """
+class C12Rt {
+    static java.util.List<String> rec = new java.util.ArrayList<>();
+    static void sink(Object o) { rec.add("sink " + o); }
+    static void out(Object o) { rec.add("out " + o); }
+}
+class C12Drv {
+    public static void main(String[] a) {
+        Object r;
+        try { r = %s; } catch (Throwable t) { r = "raise:" + t.getClass().getName(); }
+        for (String s : C12Rt.rec) System.out.println(s);
+        System.out.println("ret " + r);
+    }
+}
+"""
+
+
+def run_java_project(dirpath, files, driver, timeout=120):
+    """Compiles (javac) and runs (java) a copy of the project in which the unqualified calls sink(...) / out(...) go to
+    a recording class and a driver calls the entry. The copy is only used to confirm that an edit (a permutation of the
+    top-level classes in particular) leaves a valid program with the same behaviour. -> [status, records, []]"""
+    os.makedirs(dirpath, exist_ok=True)
+    srcs = []
+    for rel, text in files.items():
+        if not rel.endswith(".java"):
+            continue
+        t = re.sub(r"(?<![A-Za-z0-9_.])sink\(", "C12Rt.sink(", text)
+        t = re.sub(r"(?<![A-Za-z0-9_.])out\(", "C12Rt.out(", t)
+        p = os.path.join(dirpath, os.path.basename(rel))
+        with open(p, "w", encoding="utf-8") as f:
+            f.write(t)
+        srcs.append(p)
+    dp = os.path.join(dirpath, "C12Drv.java")
+    with open(dp, "w") as f:
+        f.write(JAVA_DRIVER % driver["call"])
+    srcs.append(dp)
+    out_dir = os.path.join(dirpath, "cls")
+    os.makedirs(out_dir, exist_ok=True)
+    try:
+        r = subprocess.run(["javac", "-nowarn", "-d", out_dir] + srcs, capture_output=True, text=True, timeout=timeout)
+        if r.returncode != 0:
+            return ["javac-rejected", [], [r.stderr[-300:]]]
+        r = subprocess.run(["java", "-Xshare:auto", "-XX:TieredStopAtLevel=1", "-cp", out_dir, "C12Drv"], capture_output=True, text=True, timeout=timeout)
+    except (OSError, subprocess.TimeoutExpired) as e:
+        return ["harness:" + type(e).__name__, [], []]
+    if r.returncode != 0:
+        return ["java-exit:" + str(r.returncode), [], [r.stderr[-300:]]]
+    return ["ok", r.stdout.strip().split("\n"), []]
 
 
 NODE_PRELUDE = ("const __o=[];globalThis.out=(...a)=>{__o.push(['out',...a]);};globalThis.sink=(...a)=>{__o.push(['sink',...a]);};"
